@@ -545,3 +545,56 @@ def debug_assert_side_effect_free(body):
                 if rv["k"] in ("ref", "rawptr") and rv.get("mut") and rv["place"]["l"] in names:
                     return False
     return True
+
+
+def int_param_functions(F):
+    """Local functions with an integer parameter: analysed in the context of each caller (inlined)."""
+    out = set()
+    for b in F.fn_bodies():
+        if b.rec["kind"] == "Closure":
+            continue
+        ins = b.rec.get("inputs") or []
+        if any(ty_range(x) and x != "bool" for x in ins):
+            out.add(b.rec["path"])
+    return out
+
+
+def rule_int_total(prop, repo, entries):
+    """No assertion (bounds or overflow) can fail for any integer argument of these entry points."""
+    F = repo.F
+    R = Rule("R-TOTAL-INT", "entry points with integer arguments: every bounds / overflow assertion met (callees with integer parameters analysed in context) holds for "
+             "the whole range of the argument types", floor=len(entries), exhaustive=True)
+    inl = int_param_functions(F)
+    for path in entries:
+        b = F.bodies.get(path)
+        R.instance()
+        if b is None:
+            R.fail_closed("%s:int-total:%s" % (prop, path), "%s not found" % path)
+            continue
+        dom = RangeDomain(F)
+        ex = AbsExec(F, dom, inline=lambda d: d in inl, max_steps=600000, max_paths=20000)
+        args = []
+        for ty in b.rec.get("inputs") or []:
+            r = ty_range(ty)
+            if r:
+                args.append(Rng(*r))
+            elif ty.strip().startswith("&"):
+                hf = Frame(b, [])
+                rr = ty_range(ty.strip().lstrip("&").replace("mut ", "").strip())
+                hf.env[0] = Rng(*rr) if rr else TOP
+                args.append(Ref(hf, 0))
+            else:
+                args.append(TOP)
+        try:
+            ex.run(b, args)
+        except FactsError as e:
+            R.fail_closed("%s:int-total:%s" % (prop, path), str(e))
+            continue
+        bad = [(k, s) for k, s in dom.sites.items() if s["fails"] or s["unknown"]]
+        for (fn, bb), s in bad:
+            fb = F.bodies.get(fn)
+            R.violation("%s:int-total:%s→%s#%s" % (prop, path, fn, s["kind"]),
+                        "%s: %s in %s %s for some argument value (%s)" % (path, s["kind"], fn, "fails" if s["fails"] else "is not bounded", s["detail"]), loc_of(fb, bb) if fb else None, fn)
+        if not bad:
+            R.ok(sample={"entry": path, "assertions_examined": len(dom.sites), "all_hold": True})
+    return R.finish()
